@@ -1,4 +1,5 @@
 import Oidc.Proofs.CodeHandler
+import Oidc.Proofs.CodeSession
 import Oidc.Shapes
 import Oidc.Proofs.SessionHist
 import Oidc.Facts
@@ -116,5 +117,58 @@ theorem code_splitIntoChunks_joins (s : Str) (n : Int) (hn : 0 < n) :
     ∃ cs, Code.splitIntoChunks (s.length + 1) s n = some cs ∧ cs.flatten = s ∧ ∀ c ∈ cs, c.length ≤ n.toNat ∧ c ≠ [] :=
   ⟨splitN n.toNat s, splitIntoChunks_refines s n hn _ (Nat.lt_succ_self _), splitN_flatten n.toNat s (by omega),
     splitN_piece_le n.toNat s⟩
+
+open Oidc.Generated Oidc.CodeRefine in
+/-- session.go `SetAccessToken` / `GetAccessToken` (with `expireAccessTokenChunks` and `splitIntoChunks` inside) as translated,
+    over the heap of gorilla sessions (`Go.SessData`: the per-request registry by cookie name, the request's decoded cookies, the
+    chunk map): **what the setter leaves in memory is what the getter reads** — for a token of any length, stored whole or cut into
+    any number of chunk sessions, whether or not a request is attached (then the chunk cookies the request carries are expired
+    first, and the loop ends at the first index the request has no cookie for).  Assumed of gzip+base64 only that decompression
+    undoes compression on this token and that compressed text is never empty.  Nothing outside the access token's own sessions
+    changes: the refresh token's and the main session are as they were. -/
+theorem code_SetAccessToken_GetAccessToken (sd : Go.SessData) (tok : Go.Str) (fuel : Nat)
+    (hwf : sd.accessSession = Code.accessTokenCookie)
+    (hdec : sd.decompress (sd.compress tok) = tok) (hne : sd.compress tok ≠ [])
+    (hf : (sd.compress tok).length < fuel)
+    (hterm : sd.hasRequest = true → ∃ N : Nat, N < fuel ∧ (∀ j : Nat, j < N → chunkIsNew Code.accessTokenCookie sd j = false) ∧
+        chunkIsNew Code.accessTokenCookie sd N = true) :
+    ∃ sd', Code.SessionData_SetAccessToken fuel sd tok = some sd' ∧ Code.SessionData_GetAccessToken fuel sd' = some tok ∧
+      (∀ q, q ≠ Code.accessTokenCookie → (∀ i, q ≠ Go.chunkName Code.accessTokenCookie i) → Go.regGet sd'.reg q = Go.regGet sd.reg q) ∧
+      sd'.refreshSession = sd.refreshSession ∧ sd'.refreshTokenChunks = sd.refreshTokenChunks ∧ sd'.mainSession = sd.mainSession :=
+  SetAccessToken_GetAccessToken sd tok fuel hwf hdec hne hf hterm
+
+open Oidc.Generated Oidc.CodeRefine in
+/-- the same for `SetRefreshToken` / `GetRefreshToken` -/
+theorem code_SetRefreshToken_GetRefreshToken (sd : Go.SessData) (tok : Go.Str) (fuel : Nat)
+    (hwf : sd.refreshSession = Code.refreshTokenCookie)
+    (hdec : sd.decompress (sd.compress tok) = tok) (hne : sd.compress tok ≠ [])
+    (hf : (sd.compress tok).length < fuel)
+    (hterm : sd.hasRequest = true → ∃ N : Nat, N < fuel ∧ (∀ j : Nat, j < N → chunkIsNew Code.refreshTokenCookie sd j = false) ∧
+        chunkIsNew Code.refreshTokenCookie sd N = true) :
+    ∃ sd', Code.SessionData_SetRefreshToken fuel sd tok = some sd' ∧ Code.SessionData_GetRefreshToken fuel sd' = some tok ∧
+      (∀ q, q ≠ Code.refreshTokenCookie → (∀ i, q ≠ Go.chunkName Code.refreshTokenCookie i) → Go.regGet sd'.reg q = Go.regGet sd.reg q) ∧
+      sd'.accessSession = sd.accessSession ∧ sd'.accessTokenChunks = sd.accessTokenChunks ∧ sd'.mainSession = sd.mainSession :=
+  SetRefreshToken_GetRefreshToken sd tok fuel hwf hdec hne hf hterm
+
+open Oidc.Generated Oidc.CodeRefine in
+/-- the chunk names the two tokens use never coincide with each other or with the three fixed cookie names, and differ from
+    index to index (what keeps the sessions apart in the registry, and the cookies apart in the browser) -/
+theorem code_chunk_names_distinct (i j : Int) :
+    (Go.chunkName Code.accessTokenCookie i = Go.chunkName Code.accessTokenCookie j → i = j) ∧
+    Go.chunkName Code.accessTokenCookie i ≠ Go.chunkName Code.refreshTokenCookie j ∧
+    Go.chunkName Code.accessTokenCookie i ≠ Code.accessTokenCookie ∧ Go.chunkName Code.accessTokenCookie i ≠ Code.refreshTokenCookie ∧
+    Go.chunkName Code.refreshTokenCookie i ≠ Code.accessTokenCookie ∧ Go.chunkName Code.refreshTokenCookie i ≠ Code.refreshTokenCookie :=
+  ⟨chunkName_inj _ i j, chunkName_bases _ _ i j (by decide) (by decide), chunkName_ne_base _ i,
+   chunkName_ne_other _ _ i (by decide), chunkName_ne_other _ _ i (by decide), chunkName_ne_base _ i⟩
+
+/-- a state that meets the hypotheses (premises satisfiable): a request without chunk cookies, a codec that prepends one byte -/
+def exampleSD : Go.SessData :=
+  ⟨true, [], fun _ => none, 86400, fun t => 'z' :: t, fun t => t.drop 1, ['m'],
+   Oidc.Generated.Code.accessTokenCookie, Oidc.Generated.Code.refreshTokenCookie, [], [], []⟩
+
+example : exampleSD.accessSession = Oidc.Generated.Code.accessTokenCookie ∧ exampleSD.decompress (exampleSD.compress ['a','b']) = ['a','b'] ∧
+    exampleSD.compress ['a','b'] ≠ [] ∧ Oidc.CodeRefine.chunkIsNew Oidc.Generated.Code.accessTokenCookie exampleSD 0 = true := by
+  refine ⟨rfl, rfl, by simp [exampleSD], ?_⟩
+  simp [Oidc.CodeRefine.chunkIsNew, Go.storeGet, Go.regHas, Go.sessIsNew, Go.regGet, exampleSD]
 
 end Oidc.Props.C07
